@@ -135,6 +135,7 @@ func init() {
 		Units: []Unit{
 			{Name: "sketches", QShards: 2, TShards: 8, Run: c17Sketches},
 			{Name: "distance", TShards: 4, Run: c17Distance},
+			{Name: "long", QShards: 4, TShards: 12, Run: c17Long},
 			{Name: "fromjaccard", Run: c17FromJaccard},
 		},
 	})
@@ -162,6 +163,9 @@ func c17Sketches(c *Ctx) {
 			kk := 1 + r.IntN(32)
 			if r.IntN(2) == 0 {
 				kk = 1 + r.IntN(8)
+			}
+			if r.IntN(12) == 0 { // beyond one machine word of 2-bit codes
+				kk = pick(r, []int{31, 32, 33, 63, 64, 65, 100})
 			}
 			size := pick(r, []int{1, 2, 5, 50, 1000})
 			ns := 1 + r.IntN(5)
@@ -421,4 +425,57 @@ func c17FromJaccard(c *Ctx) {
 		})
 	}
 	c.Exhaustive("fromjaccard: 2001-point grid of j in [0,1] x k in 1..32")
+}
+
+// c17Long: sequences much longer than typical reads (16 Ki .. 140 Ki bases,
+// lengths around powers of two), k large enough that k-mers are mostly unique,
+// and sketches large enough to keep every k-mer, so that a single k-mer lost
+// at an internal chunk boundary shows.
+func c17Long(c *Ctx) {
+	n := c.N(8, 240)
+	for i := 0; i < n; i++ {
+		c.Case(int64(i), func(k *K) {
+			r := k.Rand()
+			h := &hashOracle{memo: map[string]uint64{}}
+			kk := 10 + r.IntN(23)
+			l := pick(r, []int{16383, 16384, 16385, 16400, 20000, 32767, 32768, 32800, 40000, 65536, 65600, 70000, 140000}) + r.IntN(3)*kk
+			size := pick(r, []int{1000, 200000})
+			seq := randSeq(r, []byte("ACGT"), l)
+			if r.IntN(4) == 0 {
+				seq = swapCase(r, seq)
+			}
+			seqs := [][]byte{seq}
+			if r.IntN(3) == 0 {
+				seqs = append(seqs, randSeq(r, []byte("ACGT"), r.IntN(300)))
+			}
+			k.Input("n", size)
+			k.Input("k", kk)
+			k.Input("sequence_lengths", fmt.Sprint(len(seqs[0]), len(seqs)))
+			want := refSketch(h, size, kk, seqs)
+			got := append([]uint64{}, mash.Sequences(size, kk, seqs...).View()...)
+			if !sameU64(got, want) {
+				k.Input("seq_b64", b64(seq))
+				k.Failf("sketch-long", "Sequences(%d,%d, sequence of %d bases).View() has %d values, brute-force bottom-n has %d; they differ", size, kk, l, len(got), len(want))
+				return
+			}
+			rc := [][]byte{refRevComp(seq)}
+			rc = append(rc, seqs[1:]...)
+			if v := mash.Sequences(size, kk, rc...).View(); !sameU64(v, want) {
+				k.Failf("sketch-variant", "sketch of a %d-base sequence changes under reverse complement", l)
+				return
+			}
+			var parts [][]byte
+			for _, s := range seqs {
+				parts = append(parts, repartition(r, s, kk)...)
+			}
+			if v := mash.Sequences(size, kk, parts...).View(); !sameU64(v, want) {
+				k.Failf("sketch-variant", "sketch of a %d-base sequence changes under re-partitioning with k-1 overlap", l)
+				return
+			}
+			k.Count("sketches_checked", 1)
+			k.Count("long_sequences_checked", 1)
+			k.Count("variants_checked", 2)
+			k.Nontrivial([]byte(fmt.Sprint(size, kk, l)), seq[:64])
+		})
+	}
 }
